@@ -18,9 +18,9 @@
   are assumed to agree (NaN is outside; the harness tests it for well-formedness only).
   What is proved about the per-dump list: indexing, comparison, the constructor, add (with and
   without a value), remove, add_unmatched, remove_repeats, concatenate, partition,
-  partition ∘ concatenate.  For align the theorems give well-formedness for arbitrary segments and
-  boundaries ⊆ segment starts; which value each aligned segment carries is compared with the
-  implementation by the harness only (said in the claim).
+  partition ∘ concatenate.  For align the theorems give well-formedness for arbitrary segments,
+  boundaries ⊆ segment starts and (c11_align_values) which boundaries survive and which value each
+  aligned segment carries: that of the last boundary that landed on its start.
 
   Float values with NaN (Model Part 4, section "float values with NaN" below): `FV` = number or NaN
   *object*; its structural equality is Python's identity-then-`==` (dict keys, `list.index`, the
@@ -41,6 +41,7 @@
 import KatdalModel.Lemmas.CatRemove
 import KatdalModel.Lemmas.CatNaN
 import KatdalModel.Lemmas.CatNaNConcat
+import KatdalModel.Lemmas.CatAlign
 open Np Categorical
 
 namespace C11
@@ -149,6 +150,28 @@ theorem c11_remove_perDump (c : Cat V) (h : c.WF) (v : V) (c' : Cat V) (hrem : c
 theorem c11_align_boundaries (c : Cat V) (segs : List Nat) (c' : Cat V) (h : c.align segs = .ok c') :
     ∀ e ∈ c'.ev, e ∈ segs :=
   align_boundaries c segs c' h
+
+/-- **What alignment keeps.**  With `moved` the nearest segment start of every boundary (the one-past-the-end
+    boundary included): `moved` is non-decreasing, the aligned series has a boundary at every entry of `moved` that
+    is smaller than its successor - i.e. at the *last* boundary that landed on that start - carrying the value of
+    exactly that boundary, and ends at the last entry of `moved`.  Earlier boundaries that landed on the same start
+    are dropped together with their values. -/
+theorem c11_align_values (c : Cat V) (h : c.WF) (segs : List Nat) (c' : Cat V) (hal : c.align segs = .ok c') :
+    let moved := c.ev.map (nearest segs)
+    moved.Pairwise (· ≤ ·) ∧
+    c'.values = ((c.values.zip (moved.zip moved.tail)).filter (fun p => decide (p.2.1 < p.2.2))).map (·.1) ∧
+    c'.ev = ((moved.zip (moved.zip moved.tail)).filter (fun p => decide (p.2.1 < p.2.2))).map (·.1)
+              ++ [moved.getLastD 0] := by
+  intro moved
+  have hne : segs ≠ [] := by
+    intro hs; simp [Cat.align, hs] at hal
+  obtain ⟨hv, he⟩ := align_values c h segs c' hal
+  refine ⟨?_, ?_, ?_⟩
+  · show (c.ev.map (nearest segs)).Pairwise (· ≤ ·)
+    rw [List.pairwise_map]
+    exact (WF.sorted h).imp (fun hab => nearest_mono segs hne _ _ hab)
+  · rw [hv, keptRise_eq_filter]
+  · rw [he, keptRise_eq_filter]
 
 /-! ### every operation keeps the series well-formed -/
 
